@@ -1116,8 +1116,14 @@ fn run_script(input: &str) -> (Outcome, String) {
                 let n = w.sym_of(&id.to_string());
                 // an object changed behind the cache's back earlier and not named by a reference update of
                 // this fetch is still legitimately out of date: not judged
-                let dirty = if *kind == Kind::Patch { w.dirty_p.contains(&n) } else { w.dirty_i.contains(&n) };
-                let abs = if dirty { w.abs(*kind, id) } else { w.abs_checked(*kind, id, "stale-after-fetch") };
+                // (likewise an object in the known-finding state `stale-after-remove` that this fetch did not touch:
+                // e.g. `rm` by a signer who holds no reference changes nothing)
+                let unjudged = if *kind == Kind::Patch {
+                    w.dirty_p.contains(&n) || w.stale_p.contains(&n)
+                } else {
+                    w.dirty_i.contains(&n) || w.stale_i.contains(&n)
+                };
+                let abs = if unjudged { w.abs(*kind, id) } else { w.abs_checked(*kind, id, "stale-after-fetch") };
                 chg.push(format!("{}{n}={abs}", if *kind == Kind::Patch { 'p' } else { 'i' }));
             }
             let chg = if chg.is_empty() { "-".to_string() } else { chg.join("&") };
@@ -1384,7 +1390,7 @@ fn main() {
     }
     if !is_replay {
         let mut rng = ctx.rng();
-        let n = ctx.size(45, 800);
+        let n = ctx.size(45, 450);
         for _ in 0..n {
             let input = gen_case(&mut rng, 28);
             let (o, annotated) = run_script(&input);
